@@ -113,6 +113,10 @@ NOPANIC = {
     "<std::str::Split<'a, P> as std::iter::Iterator>::next": "returns Option",
     "std::iter::Iterator::count": "bounded by the string length",
     "std::array::iter::<impl std::iter::IntoIterator for [T; N]>::into_iter": "moves the array into its by-value iterator",
+    "core::slice::<impl [T]>::iter": "iterator constructor (two pointers)",
+    "core::slice::<impl [T]>::iter_mut": "iterator constructor (two pointers)",
+    "<std::slice::Iter<'a, T> as std::iter::Iterator>::next": "returns Option",
+    "<std::slice::IterMut<'a, T> as std::iter::Iterator>::next": "returns Option",
     "<std::array::IntoIter<T, N> as std::iter::Iterator>::next": "returns Option (reads only the live range of the array)",
     "<std::option::Option<T> as std::ops::Try>::branch": "`?`: match on the discriminant, moves the payload",
     "<std::result::Result<T, E> as std::ops::Try>::branch": "`?`: match on the discriminant, moves the payload",
@@ -356,7 +360,7 @@ def r15_1(ctx):
         raise AnchorMissing(FROM_FEN)
     ctx.note_fn(*cone)
     root = f.body(FROM_FEN)
-    top = Intervals(root, variant_sets=True)
+    top = Intervals(root, variant_sets=True, through_refs=True)
     contexts = {}
     for (callee, _), sub in top.sub_analyses.items():
         contexts.setdefault(callee, []).append(sub)
@@ -365,7 +369,7 @@ def r15_1(ctx):
         b = f.body(fn)
         ex = Exprs(b)
         short = fn.replace("board::BoardState::", "").replace("zobrist::ZobristHasher::", "")
-        ivs = [top] if fn == FROM_FEN else (contexts.get(fn) or [Intervals(b, variant_sets=True)])
+        ivs = [top] if fn == FROM_FEN else (contexts.get(fn) or [Intervals(b, variant_sets=True, through_refs=True)])
         n_by_kind = {}
         for bb in b.normal:
             if bb not in b.reachable:
@@ -593,16 +597,21 @@ def r15_3(ctx):
             if e[0] == "agg" and e[1] == "board::Point" and e[3][0][0] == "const":
                 continue   # initial Point(0, 0)
             conds = []
+            # what the dominating branch decisions say about the kind and the colour of the piece,
+            # however the test is spelt: `kind == King`, `kind != King` (else edge), `match color {..}`,
+            # a pattern `Piece { kind: King, color }` (discriminant switch on the kind)
             for d, vals, excl, s, tg in dominating_facts(b, ex, loc[0]):
                 d0 = strip_refs(d)
-                if d0[0] == "bin" and d0[1] == "Eq" and ((vals is None and excl == [0]) or vals == [1]):
+                truth = True if ((vals is None and excl == [0]) or vals == [1]) else (False if vals == [0] else None)
+                if d0[0] == "bin" and d0[1] in ("Eq", "Ne") and truth is not None and truth == (d0[1] == "Eq"):
                     for x, k in ((strip_refs(d0[2]), strip_refs(d0[3])), (strip_refs(d0[3]), strip_refs(d0[2]))):
-                        if k[0] == "agg" and k[1] == "board::PieceKind":
+                        if k[0] == "agg" and k[1] in ("board::PieceKind", "board::PieceColor") and not k[3]:
                             conds.append(k[2])
-                if d0[0] == "discr" and vals is not None and len(vals) == 1:
-                    x = strip_refs(d0[1])
-                    if x[0] == "field" and x[2] == "color":
-                        conds.append(f.enum_variant_by_discr("board::PieceColor").get(vals[0]))
+                if d0[0] == "discr" and len(d0) > 2 and d0[2] in ("board::PieceKind", "board::PieceColor"):
+                    names = f.enum_variant_by_discr(d0[2])
+                    poss = {names[v] for v in vals if v in names} if vals is not None else {n for v, n in names.items() if v not in excl}
+                    if len(poss) == 1:
+                        conds.append(next(iter(poss)))
             kw.setdefault(st["place"]["local"], []).append((sorted(conds), e))
     roots = {}
     if agg:
